@@ -155,6 +155,24 @@ fn one<C: Suite>(ctx: &mut Ctx, g: u64, ename: &str, m: &RS, _rep: usize) {
     let mut p = proof; p.challenge = other_proof.challenge; variants.push(("challenge-of-other-proof", p));
     let mut p = proof; p.ciphertext = other_proof.ciphertext; variants.push(("ciphertext-of-other-proof", p));
     let mut p = proof; core::mem::swap(&mut p.message_proof, &mut p.blinder_proof); variants.push(("message_proof<->blinder_proof", p));
+    // a verifier that compares only part of the challenge accepts a small fraction of tampered
+    // proofs: sweep many values per component instead of one
+    let mut sweep: Vec<(String, ElGamalProof<C>)> = Vec::new();
+    {
+        let mut acc = one;
+        for i in 1..=ctx.tier.pick(48u32, 160) {
+            let mut p = proof; p.message_proof += acc; sweep.push((format!("message_proof+{i}"), p));
+            let mut p = proof; p.blinder_proof += acc; sweep.push((format!("blinder_proof+{i}"), p));
+            let mut p = proof; p.challenge += acc; sweep.push((format!("challenge+{i}"), p));
+            acc += one;
+        }
+    }
+    for (vn, p) in &sweep {
+        let Some(a) = ctx.guard("ElGamalProof::verify", || d(vn), || p.verify(pk).is_ok()) else { continue };
+        let class = vn.split('+').next().unwrap_or("sweep");
+        ctx.expect(!a, &format!("C14/perturbed-proof-accepted/{n}/{class}+i"), || { let mut x = d("a proof with one scalar changed is accepted"); x["variant"] = json!(vn); x });
+        ctx.hit(&format!("{n}/proof/perturbed"), &[vn.as_bytes(), &pb]);
+    }
     for (vn, p) in variants {
         let a = ctx.guard("ElGamalProof::verify", || d(vn), || p.verify(pk).is_ok());
         let b = ctx.guard("ElGamalProof::verify_and_decrypt", || d(vn), || p.verify_and_decrypt(&sk).is_ok());
